@@ -330,7 +330,7 @@ def commit_program(rng, ncases, lanes=ALL_LANES, big=False, algos=("sha256", "sh
             opts["size"] = n
         elif sz == "more":
             opts["size"] = n + rng.choice([1, 7, 5000])
-        sk = rng.choice(["none", "none", "right", "wrong", "other", "multi_weaker"])
+        sk = rng.choice(["none", "none", "right", "wrong", "other", "multi_weaker", "multi_stronger"])
         if sk == "right":
             opts["sri"] = [{"a": algo, "d": d}]
         elif sk == "wrong":
@@ -342,6 +342,11 @@ def commit_program(rng, ncases, lanes=ALL_LANES, big=False, algos=("sha256", "sh
             # declared value is the writer's own, so the entry stays readable by key
             weaker = [a for a in ("sha1",) if ALGOS_RANK[a] > ALGOS_RANK[algo]]
             opts["sri"] = [{"a": algo, "d": d}] + ([{"a": weaker[0], "d": d}] if weaker else [])
+        elif sk == "multi_stronger":
+            # KNOWN FINDING (known_findings.json): the commit succeeds but the entry points at the
+            # address of the stronger algorithm, where nothing was stored; the contract mirrors this
+            stronger = [a for a in ("sha512",) if ALGOS_RANK[a] < ALGOS_RANK[algo]]
+            opts["sri"] = ([{"a": stronger[0], "d": d}] if stronger else []) + [{"a": algo, "d": d}]
         if rng.random() < 0.3:
             opts.update(rand_opts(rng))
         if key:
